@@ -128,3 +128,52 @@ unsafe impl lock_api::RawRwLock for AuditRwLock {
 		w.raw_op(t, id, Op::Unlock, Mode::Excl);
 	}
 }
+
+/// A ONE-BYTE auditing raw mutex (the id is the World's lock id, which stays below 256 in the
+/// episodes that use it): `Mutex<u8, SmallAuditMutex>` is 3 bytes with alignment 1, like a
+/// parking_lot `Mutex<u8>`, so several of them share one 8-byte word.
+pub struct SmallAuditMutex {
+	id: std::sync::atomic::AtomicU8,
+}
+impl SmallAuditMutex {
+	fn resolve(&self) -> LockId {
+		let v = self.id.load(Relaxed);
+		if v != 0 {
+			return v as LockId;
+		}
+		let new = match take_reg_tag() {
+			Some(t) => t,
+			None => {
+				let (w, _) = cur();
+				w.add_lock(false)
+			}
+		};
+		assert!(new < 256, "SmallAuditMutex needs a lock id below 256");
+		self.id.store(new as u8, Relaxed);
+		new
+	}
+}
+unsafe impl lock_api::RawMutex for SmallAuditMutex {
+	#[allow(clippy::declare_interior_mutable_const)]
+	const INIT: Self = SmallAuditMutex {
+		id: std::sync::atomic::AtomicU8::new(0),
+	};
+	type GuardMarker = GuardNoSend;
+
+	fn lock(&self) {
+		let id = self.resolve();
+		let (w, t) = cur();
+		w.raw_op(t, id, Op::Lock, Mode::Excl);
+	}
+	fn try_lock(&self) -> bool {
+		let id = self.resolve();
+		let (w, t) = cur();
+		w.raw_op(t, id, Op::Try, Mode::Excl)
+	}
+	unsafe fn unlock(&self) {
+		let id = self.resolve();
+		probe_key_during_guard_release(id);
+		let (w, t) = cur();
+		w.raw_op(t, id, Op::Unlock, Mode::Excl);
+	}
+}
